@@ -48,6 +48,8 @@ type SliceV struct {
 	// ViewW > 0: this []byte is a byte view of an array whose elements are ViewW bytes wide
 	ViewW    int
 	ViewElem types.Type
+	// Base: path from Arr's root value to the array (arrays embedded in structs)
+	Base []PathElem
 }
 
 type StrV struct {
@@ -97,9 +99,10 @@ type LazyV struct {
 
 // Obj is an executor-level heap object (struct cell, scalar cell, array, opaque).
 type Obj struct {
-	ID   int
-	Name string
-	T    types.Type
+	ID    int
+	Name  string
+	T     types.Type
+	IsArr bool // backing array of slices; T is then []Elem
 }
 
 func (o *Obj) String() string { return fmt.Sprintf("%s#%d", o.Name, o.ID) }
